@@ -87,10 +87,17 @@ Qed.
 
 (* keys of carried elements that all carry their ID tag *)
 Lemma ckey_keyed tag idtag x :
-  is_keyed (ckey tag idtag) x = true -> ckey tag idtag x = KKey (elem_id idtag x).
+  has_id tag idtag x = true -> ckey tag idtag x = KKey (elem_id idtag x).
 Proof.
-  unfold is_keyed, ckey, elem_id. destruct (has_tag tag x); [|discriminate].
+  unfold has_id, ckey, elem_id. destruct (has_tag tag x); [|discriminate].
   destruct (find idtag (kids_of x)); [reflexivity | discriminate].
+Qed.
+
+(* after the find_child repair no child makes a lookup raise *)
+Lemma no_bad_ckey tag idtag l : no_bad (ckey tag idtag) l = true.
+Proof.
+  unfold no_bad. apply forallb_forall. intros x _. unfold ckey.
+  destruct (has_tag tag x); [|reflexivity]. destruct (find idtag (kids_of x)); reflexivity.
 Qed.
 
 Lemma keys_carried tag idtag l :
@@ -101,7 +108,30 @@ Proof.
 Qed.
 Lemma carried_all_keyed tag idtag l :
   carried_ok tag idtag l = true -> all_keyed (ckey tag idtag) l = true.
-Proof. intros H. exact H. Qed.
+Proof.
+  unfold carried_ok, all_keyed. intros H. apply forallb_forall. intros x Hx.
+  unfold is_keyed. rewrite (ckey_keyed tag idtag x); [reflexivity|].
+  eapply forallb_forall in H; eauto.
+Qed.
+
+(* hence every element is "well formed" in the sense the lookups need *)
+Lemma wf_story_true x : wf_story x = true.
+Proof. unfold wf_story. destruct (has_tag t_story x); [apply no_bad_ckey | reflexivity]. Qed.
+Lemma story_elem_ok_true x : story_elem_ok x = true.
+Proof.
+  unfold story_elem_ok. rewrite wf_story_true, andb_true_r. unfold skey, ckey.
+  destruct (has_tag t_story x); [|reflexivity]. destruct (find t_storyID (kids_of x)); reflexivity.
+Qed.
+Lemma wf_rc_true rc : wf_rc rc = true.
+Proof.
+  unfold wf_rc. apply andb_true_intro. split; [apply no_bad_ckey|].
+  apply forallb_forall. intros x _. apply wf_story_true.
+Qed.
+(* a document is a well-formed running order exactly when it has a roCreate element *)
+Lemma wf_ro_iff ro : wf_ro ro = true <-> rc_of ro <> None.
+Proof.
+  unfold wf_ro. destruct (rc_of ro) as [rc|]; [rewrite wf_rc_true|]; split; congruence.
+Qed.
 
 (* {story.id for story in ro.stories} is the list of story keys *)
 Lemma known_ids_keys kids :
@@ -110,7 +140,6 @@ Proof.
   induction kids as [|c l IH]; [reflexivity|]. simpl. intros H. apply andb_prop in H as [Hc Hl].
   unfold known_story_ids, findall in *. simpl. unfold skey, ckey in *.
   destruct (has_tag t_story c) eqn:E; simpl.
-  - unfold story_id, elem_id. destruct (find t_storyID (kids_of c)); [|discriminate].
-    simpl. f_equal. now apply IH.
+  - unfold story_id, elem_id. destruct (find t_storyID (kids_of c)); simpl; f_equal; now apply IH.
   - now apply IH.
 Qed.
